@@ -13,7 +13,7 @@ btable = run("benigntable.py")
 n = table.count("\n") - 2
 new = f'''## 13. Seeded breaking changes and which checks catch them
 
-{n} changes were produced in five rounds by fresh sub-agents that were given only the text of one property and a
+{n} changes were produced in six rounds by fresh sub-agents that were given only the text of one property and a
 scratch git worktree of `/repo` (nothing from `/verif`), with the brief: break the property while the library still
 compiles and its existing suite still passes, in a way that needs something specific to manifest (from round 2 on
 they were also told what the earlier changes for that property had been, and to aim at cooperating sites, forgotten clauses,
@@ -27,7 +27,7 @@ exits 0) and records the outcome; nothing is ever committed to `/repo`.
 The translator alone (regenerated `Gen` files differ from the unchanged tree's, or a fact is not found) sees 22 of
 the {n}: the changes to tables, dispatch arms, constants, lock order and helper functions; all the others keep every
 generated definition and are decided by the correspondence run and the property predicates. First-contact detection
-(quick tier, concrete input, before any strengthening) was 31/40, 21/40, 21/40, 20/40 and 25/40 in rounds 1 to 5.
+(quick tier, concrete input, before any strengthening) was 31/40, 21/40, 21/40, 20/40, 25/40 and 27/41 in rounds 1 to 6.
 
 What each round's first run missed, and what was strengthened (all {n} are caught by the quick tier now, with a
 concrete failing input except where the table below says otherwise; `result.json` holds the re-run):
@@ -105,6 +105,20 @@ concrete failing input except where the table below says otherwise; `result.json
 | `C13-r5a`, `C14-r5b` | the handshake timeout's read deadline left armed on the session; the Close 1002 sent under the application's stale write deadline | fake transports remember deadlines: none may be armed when `Dial` / `Upgrade` return; the reader's replies go out whatever write deadline the application had set |
 | `C15-r5a` (no input), `C15-r5b` | `isWriting` left set by a failed flush (later writes panic); a Close frame sent as a prepared message did not latch | library panics on driver goroutines are outcomes (and `check` reports a panic that stops the harness as `no_panic` with its stack); the Close frame sent by the writing goroutine in every way the API offers, pingers running throughout |
 | `C18-r5a` (thorough only), `C18-r5b` | the pid cached lazily without synchronisation; the context key turned into a plain string | the first lines of the process come from 16 goroutines at once, under the race detector in both tiers; application values under plain-string keys of any spelling are not the connection id |
+
+**Round 6** (41 changes — C06 got two from a second agent run —, 14 missed or caught without an input; brief: which error comes
+back, unusual call orders, faults in the middle of an operation, decoder-only inputs, the second element, two options together)
+
+| missed | why | strengthening |
+|---|---|---|
+| `C03-r6a`, `C04-r6b` | a continuation-chunk extended timestamp compared before masking (timestamps ≥ 2^31 on multi-chunk messages); the AMF3 command type (17) decoded with its format byte | packets relayed as messages at any 32-bit timestamp and through message type 17; every third response of the C04 schedules arrives as an AMF3 command |
+| `C07-r6a` | CBC-HMAC ciphertext that is not a whole number of blocks behind a VALID tag panicked in `CryptBlocks` (the F28 family) | crafted objects with ciphertexts of every length class behind a valid tag |
+| `C08-r6a`, `C08-r6b` | the root cause lost at the third byte of a 3-byte basic header (the library's writer only produces the 1-byte form); `WritePacket` returned nil after a failed write of connect / createStream | cut and fault sweeps over hand-written chunk streams with 2- and 3-byte basic headers; `WritePacket` of connect (9 KB, several transport writes), createStream and a call under faults at the write boundaries |
+| `C11-r6a` | `Encode` passed a payload through when it already looked like an ADTS frame | payloads that look like ADTS (a whole frame, off-by-one lengths, a bare sync word, two frames) are opaque |
+| `C13-r6b`, `C14-r6b` (no input) | a ping between the fragments of a message failed the message reader; fragments received before `SetReadLimit` were not counted | control frames between the fragments of a message that is being read; the read limit configured between messages and in the middle of a fragmented message |
+| `C15-r6a`, `C15-r6b` | `SetWriteDeadline` armed the transport at once and cut a control frame in progress; `ReadFrom` dropped bytes returned with `io.EOF` | a `net.Pipe` scenario: the data writer sets a short deadline while a ping is stuck in the transport; a data message streamed from an EOF-with-data source must be on the wire intact before the Close |
+| `C18-r6a`, `C18-r6b` | `Close()` reset the id counter; Printf-family calls without operands escaped `%` | ids unique across log rotation (Close / Switch); formats with `%%` and no operands |
+| `C19-r6a`, `C19-r6b` (no input) | errors classified by their `Cause()`; `&`-style sequences un-escaped in the encoded JSON | application errors that also expose a `Cause()`; strings with a literal backslash in front of `u0026` / `u003c` / `u003e` |
 
 {table}
 ### 13b. Behaviour-preserving changes: what the checks say when the properties still hold
